@@ -98,8 +98,8 @@ Record Inv (s : st) : Prop := {
   IGt : forall a i v, In (a, i, v) (got s) -> rd s i = true /\ cl s i = Some a /\ v = val_at s i /\ i < tix s;
   IGn : NoDup (map (fun g => snd (fst g)) (got s));
   IGr : forall i, rd s i = true -> In i (map (fun g => snd (fst g)) (got s));
-  (* the lock bit *)
-  ILk : forall a, lockpc (A s a) = true -> lock_ok s (A s a);
+  (* the lock bit has one owner (what the owner knows is part of [ainv]) *)
+  ILu : forall a a', lockpc (A s a) = true -> lockpc (A s a') = true -> a = a';
   IAc : forall a, ainv s a;
   IMn : bad_uaf s = false /\ bad_under s = false /\ bad_null s = false
 }.
